@@ -114,6 +114,7 @@ MODULES = {
     "operation": ("ethosu/vela/operation.py", "SrcOperation", [
         "Kernel.elements_wh", "Kernel.area_width", "Kernel.area_height"],
         {"Kernel." + f: {"records": ["self"]} for f in ("elements_wh", "area_width", "area_height")}),
+    "weight_compressor": ("ethosu/vela/weight_compressor.py", "SrcWeightCompressor", ["encode_bias"], {}),
 }
 
 _cache = {}
